@@ -1,7 +1,7 @@
 (* C20 — Reopen reaches every node of every registered pipeline.  The iteration order of the graph map and of each
    pipeline Range is the order of the list [gs]; the theorems hold for every [gs], hence for every order. *)
 From Coq Require Import List NArith.
-From Verif Require Import Alist Broker BrokerProofs BrokerExamples Run_Broker RunBrokerProofs.
+From Verif Require Import Alist Broker BrokerProofs BrokerExamples Run_Broker RunBrokerProofs RunBrokerSound.
 Import ListNotations.
 
 (* no node fails: the error is nil and every node of every pipeline of every graph had Reopen invoked *)
@@ -42,3 +42,13 @@ Print Assumptions C20_reopen_accepts_sound.
 
 Theorem C20_nonvacuous : snd (reopen_graphs (N.eqb 12%N) (graphs_of (run nocf h1))) = [12%N].
 Proof. exact reopen_fail. Qed.
+
+(* the tie: what the correspondence check's verdict means.  The check evaluates [mismatches] on the histories the real Broker
+   produced and requires []; that holds exactly when every observed history is an execution of this model (each call's result,
+   error flag, closes and registry snapshot, and each Reopen's visits, are the model's) and meets the observation-only
+   oracles - so the theorems above speak about the observed histories, and nothing the model can produce is rejected. *)
+Theorem C20_verdict_is_model_execution : forall cs,
+  mismatches cs = [] <->
+  Forall (fun c => accepted (c_close_fails c) (c_non_closers c) b0 (c_steps c) /\ oracles_ok None [] (c_steps c)) cs.
+Proof. exact mismatches_nil_iff. Qed.
+Print Assumptions C20_verdict_is_model_execution.
